@@ -2,7 +2,7 @@
 CHECK = {
     "pkg": "cert", "files": ["cert/certgen_test.go", "cert/c43_test.go"], "run": "^TestC43",
     "quick": {"scale": 1, "shards": 1, "timeout": 600},
-    "thorough": {"scale": 10, "shards": 8, "timeout": 1800, "fuzz": [{"target": "FuzzC43Decrypt", "seconds": 90}]},
+    "thorough": {"scale": 4, "shards": 8, "timeout": 1800, "fuzz": [{"target": "FuzzC43Decrypt", "seconds": 90}]},
     "rule": "Ed25519 (64-byte) and P-256 (32-byte) signing keys (real and arbitrary bytes), passphrases (empty, ASCII, "
             "unicode, 20-4800 bytes, arbitrary bytes), Argon2id parameters kept tiny (memory 8-64 KiB, 1-2 iterations, "
             "parallelism 1-4, random or drawn 16-40 byte salt); per case: round trip with trailing data, 2-5 passphrases at edit "
